@@ -6,3 +6,4 @@ from dsim import ops_look  # noqa: F401
 from dsim import ops_geom  # noqa: F401
 from dsim import ops_resave  # noqa: F401
 from dsim import ops_layout  # noqa: F401
+from dsim import ops_pkg  # noqa: F401
